@@ -268,3 +268,110 @@ Proof.
   split; vm_compute; reflexivity.
 Qed.
 (* ---- end C16a ---- *)
+(* ---- C16b: directed SCC step ---- *)
+From WG Require Import Algo.EssScc Algo.EssSccStatements Algo.EssSccGraphFacts Algo.EssSccFacts
+  Algo.EssSccTarjanStatements.
+From WG Require Algo.Scc Algo.EssSccTarjanFacts.
+
+(** the component DAG of scc_graph.rs: every stored connection is an arc between the two
+    components, and every component reached by an arc has a connection *)
+Theorem C16_scc_graph_sound : S_scc_graph_sound.
+Proof. exact scc_graph_sound. Qed.
+Print Assumptions C16_scc_graph_sound.
+
+(** after the forward / backward propagation loop the value of a component bounds the
+    forward / backward eccentricity of its pivot from above *)
+Theorem C16_ecc_pivot_f_bound : S_ecc_pivot_f_bound.
+Proof. exact ecc_pivot_f_bound. Qed.
+Print Assumptions C16_ecc_pivot_f_bound.
+
+Theorem C16_ecc_pivot_b_bound : S_ecc_pivot_b_bound.
+Proof. exact ecc_pivot_b_bound. Qed.
+Print Assumptions C16_ecc_pivot_b_bound.
+
+(** the per-node values are upper bounds of the eccentricities of the node *)
+Theorem C16_scc_node_bounds : S_scc_node_bounds.
+Proof. exact scc_node_bounds. Qed.
+Print Assumptions C16_scc_node_bounds.
+
+(** every operation of the directed machine, the SCC step included, preserves the invariant:
+    for any legal pivots and any order of the parallel per-node loop *)
+Theorem C16_scc_step_invariant : S_scc_step_invariant.
+Proof. exact scc_step_invariant. Qed.
+Print Assumptions C16_scc_step_invariant.
+
+Theorem C16_scc_run_invariant : S_scc_run_invariant.
+Proof. exact scc_run_invariant. Qed.
+Print Assumptions C16_scc_run_invariant.
+
+(** any legal sequence of visits and SCC steps reaching the exit condition gives an output
+    accepted by the complete checker *)
+Theorem C16_machine_exact_dir : S_machine_exact_dir.
+Proof. exact machine_exact_dir. Qed.
+Print Assumptions C16_machine_exact_dir.
+
+(** the pivots of the model of find_best_pivot (directed rule) are legal *)
+Theorem C16_best_pivots_dir_legal : S_best_pivots_dir_legal.
+Proof. exact best_pivots_dir_legal. Qed.
+Print Assumptions C16_best_pivots_dir_legal.
+
+(** the numbering of the model of sccs::tarjan labels the strongly connected components,
+    uses every index and is reverse topological: the hypotheses above are theorems for it *)
+Theorem C16_tarjan_scc_topo : S_tarjan_scc_topo.
+Proof. exact WG.Algo.EssSccTarjanFacts.tarjan_scc_topo. Qed.
+Print Assumptions C16_tarjan_scc_topo.
+
+Theorem C16_machine_exact_tarjan : S_machine_exact_tarjan.
+Proof. exact WG.Algo.EssSccTarjanFacts.machine_exact_tarjan. Qed.
+Print Assumptions C16_machine_exact_tarjan.
+
+Theorem C16_tarjan_pivots_legal : S_tarjan_pivots_legal.
+Proof. exact WG.Algo.EssSccTarjanFacts.tarjan_pivots_legal. Qed.
+Print Assumptions C16_tarjan_pivots_legal.
+
+(** non-vacuity: four components {5}, {3,4}, {0,1,2}, {6}; two bridge arcs 1->3 and 2->4
+    between {0,1,2} and {3,4} (the one of larger arc_value, 2->4, is kept); after two visits the
+    SCC step with the pivots of the model of find_best_pivot lowers 5 forward and 6 backward
+    upper bounds; visits then complete level All; diameter 5, radius 2 *)
+Example C16_scc_nonvacuous :
+  let g := [[1]; [2; 3]; [0; 4]; [4]; [3; 5]; []; [0]] in
+  let gt := [[2; 6]; [0]; [1]; [1; 4]; [2; 3]; [4]; []] in
+  let ck := WG.Algo.Scc.SccM.tarjan g in
+  let comp := fst ck in let k := snd ck in
+  let dm := dist_matrix g in
+  let radial := radial_of dm 0 in
+  let all := [0; 1; 2; 3; 4; 5; 6] in
+  let sd := mk_sdata g gt comp k in
+  let x1 := run_ops_dir dm sd radial [OFwd 1 []; OBwd 5 all] (init_st 7 false) in
+  let piv := best_pivots_dir true 7 comp k (tot_dir dm 7 [(true, 1); (false, 5)]) x1 in
+  let x2 := step_dir dm sd radial (OAll piv all) x1 in
+  let ops := [OFwd 1 []; OBwd 5 all; OAll piv all; OFwd 0 []; OFwd 2 []; OFwd 4 []; OFwd 6 [];
+              OBwd 0 all; OBwd 1 all; OBwd 2 all; OBwd 3 all; OBwd 4 all] in
+  wf_graph g = true /\ ck = ([2; 2; 2; 1; 1; 0; 3], 4) /\
+  scc_graph g gt comp k = [[]; [(0, (4, 5))]; [(1, (2, 4))]; [(2, (6, 0))]] /\
+  piv = [5; 3; 2; 6] /\
+  scc_ok g comp k /\ topo_ok g comp /\ Forall (legal_op_dir g comp k) ops /\
+  (uF x1, uB x1) = ([7; 3; 7; 7; 7; 7; 7], [7; 7; 7; 7; 7; 5; 7]) /\
+  (uF x2, uB x2) = ([6; 3; 4; 2; 3; 0; 7], [4; 5; 3; 5; 6; 5; 0]) /\
+  fst (replay_dir g gt comp k radial ops LAll) = 0 /\
+  check_ess g radial (snd (replay_dir g gt comp k radial ops LAll)) LAll = true /\
+  o_diam (snd (replay_dir g gt comp k radial ops LAll)) = 5 /\
+  o_rad (snd (replay_dir g gt comp k radial ops LAll)) = Some 2.
+Proof.
+  intros g gt ck comp k dm radial all sd x1 piv x2 ops.
+  assert (Hwf : wf_graph g = true) by reflexivity.
+  destruct (WG.Algo.EssSccTarjanFacts.tarjan_scc_topo g Hwf) as [Hscc [_ Htopo]].
+  fold ck comp k in Hscc, Htopo.
+  assert (Hall : forall v, In v all <-> v < 7).
+  { intros v. unfold all. cbn [In]. split; [intuition lia | intros Hv; do 7 (destruct v as [|v]; [tauto|]); lia]. }
+  assert (Hf : forall s, s < 7 -> legal_op_dir g comp k (OFwd s [])) by (intros s Hs; exact Hs).
+  assert (Hb : forall s, s < 7 -> legal_op_dir g comp k (OBwd s all))
+    by (intros s Hs; split; [exact Hs | intros v Hv _; apply Hall; exact Hv]).
+  assert (Hp : legal_op_dir g comp k (OAll piv all)).
+  { split; [|exact Hall]. apply (WG.Algo.EssSccTarjanFacts.tarjan_pivots_legal g true _ x1 Hwf). }
+  split; [exact Hwf|]. split; [vm_compute; reflexivity|]. split; [vm_compute; reflexivity|].
+  split; [vm_compute; reflexivity|]. split; [exact Hscc|]. split; [exact Htopo|]. split.
+  { unfold ops. repeat (apply Forall_cons; [first [exact Hp | apply Hf; lia | apply Hb; lia]|]). apply Forall_nil. }
+  repeat split; vm_compute; reflexivity.
+Qed.
+(* ---- end C16b ---- *)
